@@ -1,5 +1,5 @@
 SPECIFICATION Spec
 CONSTANTS
   Mutation = "none"
-  NilDictIsNull = FALSE
+  NilDictIsNull = TRUE
 CHECK_DEADLOCK FALSE
